@@ -15,7 +15,7 @@ RULE = ("A: C01 lattice (all reference subsets x query subsets containing 0 x 1.
         "non-trivial = the alignment has >= 2 segments (strand-aware chaining matters) or contains unpaired positions; distinct by "
         "full input")
 ASSUMPTIONS = ["no equidistant ties: maxPairDistance below half the lattice step (precondition of the property)",
-               "exact peak-score ties between the two strands of one query are counted as tie_undecided, not judged"]
+               "exact seed-score ties (palindromic references) are judged like any other case and counted as seed-score-tie-between-candidates"]
 STEP = 10
 CONFIGS = [(100, 1, -25, 100, 120, 1, 0), (100, 1, -25, 60, 120, 1, 0), (100, 1, -25, 150, 60, 1, 0), (100, 1, 0, 100, 120, 1, 1)]
 
@@ -183,11 +183,72 @@ def lattice_queries(tier, seed):
     return refs, out
 
 
+def tandem_ref():
+    """lattice-4200 reference: unique flank (20 labels), nine tandem copies of a 16.8 kb unit (labels at 0, 4200, 8400), unique flank.
+    Inside the array the primary correlation has peaks 16.8 kb apart - closer than minPeakDistance (20 kb) - on BOTH strands"""
+    a = worlds.catalogue_ref(3, 'lattice4200', 21, ref_id=5)
+    b = worlds.catalogue_ref(4, 'lattice4200', 21, ref_id=5)
+    pos = list(a[2])
+    x = pos[-1] + 12600.0
+    for u in range(9):
+        for o in (0.0, 4200.0, 8400.0):
+            pos.append(x + u * 16800.0 + o)
+    x = pos[-1] + 12600.0
+    pos += [x + (p - b[2][0]) for p in b[2]]
+    return (5, pos[-1] + 14000.0, pos)
+
+
+def palindromic_ref():
+    """flank, segment S, gap, INVERTED copy of S, flank: a molecule of S has two equally good placements, one per strand"""
+    a = worlds.catalogue_ref(6, 'lattice4200', 60, ref_id=9)
+    pos = list(a[2][:40])
+    seg = pos[10:30]
+    end = pos[-1] + 16800.0
+    inv = [end + (seg[-1] - p) for p in reversed(seg)]
+    tail = [inv[-1] + 12600.0 + (p - a[2][40]) for p in a[2][40:60]]
+    return (9, tail[-1] + 14000.0, pos + inv + tail)
+
+
+def lattice4200_queries(tier):
+    ref = tandem_ref()
+    plain = worlds.catalogue_ref(5, 'lattice4200', 48, ref_id=6)
+    out = []
+    pal = palindromic_ref()
+    for s in (10, 12, 15) if tier == 'quick' else (10, 11, 12, 14, 15, 17):
+        for l in (12, 18):
+            for rev in (False, True):
+                out.append(([pal], dict(window=[9, s, l], reverse=rev, lattice=4200, palindromic=True), worlds.window_query(pal, s, l, rev)[0][2]))
+    for r, starts in ((ref, (4, 14, 19, 24, 30, 41, 48)), (plain, (5, 20))):
+        for s in starts:
+            for l in (14, 20):
+                for rev in (False, True):
+                    q = worlds.window_query(r, s, l, rev)[0][2]
+                    out.append(([r, plain] if r is ref else [plain], dict(window=[r[0], s, l], reverse=rev, lattice=4200), q))
+                    if tier == 'thorough' or s in (14, 24, 5):
+                        for i in (l // 2, l // 2 + 3):
+                            q1 = worlds.apply_edit(q, ('indel', i, 4200.0))
+                            if q1:
+                                out.append(([r, plain] if r is ref else [plain], dict(window=[r[0], s, l], reverse=rev, lattice=4200, script=[['indel', i, 4200]]), q1))
+    return out
+
+
+def seeds_by_reference(obs):
+    out = {}
+    maps = 0
+    for ev in obs.events:
+        if ev[0] == 'map':
+            maps += 1
+        if ev[0] == 'seeds' and maps == 1:         # first pass only (second-pass fragments are different molecules)
+            out.setdefault((ev[3], ev[4]), []).extend((round(p[0], 3), p[1], p[2]) for p in ev[5])
+    return {k: sorted(v) for k, v in out.items()}
+
+
 def first_pass_records(obs):
     return xmaptext.parse(obs.files.get('main', ''))[2]
 
 
 SETTINGS = (('-d', '600'), ('-d', '600', '-pt', '12', '-ma', '30000'))
+SETTINGS_4200 = ((), ('-pt', '12', '-ma', '30000'))       # default maxPairDistance 1500 < half of the 4200 step: still no equidistant ties
 
 
 def check_world(refs, pos, acc, key=None, setting=0):
@@ -195,7 +256,7 @@ def check_world(refs, pos, acc, key=None, setting=0):
     q = (7, pos[-1] + 1.0 + 2500.0, list(pos))
     qm = (7, pos[-1] + 1.0 + 700.0, sorted(pos[-1] - p for p in pos))
     n = len(pos)
-    extra = list(SETTINGS[setting])
+    extra = list((SETTINGS + SETTINGS_4200)[setting])
     o1 = driver.run_world(dict(refs=refs, queries=[q]), 'separate', extra=extra, extensions=[sink_seeds()], in_child=_nseg)
     o2 = driver.run_world(dict(refs=refs, queries=[qm]), 'separate', extra=extra, extensions=[sink_seeds()], in_child=_nseg)
     found = []
@@ -212,6 +273,13 @@ def check_world(refs, pos, acc, key=None, setting=0):
     r1, r2 = first_pass_records(o1), first_pass_records(o2)
     tie = _strand_tie(o1) or _strand_tie(o2)
     diffs = []
+    # the seeding itself is mirror symmetric: the primary peaks of q on strand s are exactly those of mirror(q) on the other strand
+    s1, s2 = seeds_by_reference(o1), seeds_by_reference(o2)
+    for (rid, rev), peaks in sorted(s1.items()):
+        if s2.get((rid, not rev)) != peaks:
+            found.append(('seed-peaks-not-mirrored', 'reference %s: q on %s has primary peaks %s, mirror(q) on %s has %s' % (
+                rid, '-' if rev else '+', peaks[:6], '+' if rev else '-', (s2.get((rid, not rev)) or [])[:6]), 'seeding', {}))
+            break
     if len(r1) != len(r2):
         diffs.append(('record-count', '%d vs %d' % (len(r1), len(r2))))
     for a, b in zip(r1, r2):
@@ -224,7 +292,9 @@ def check_world(refs, pos, acc, key=None, setting=0):
             diffs.append(('pairs-not-mirrored', '%s vs %s' % (a['pairs'], b['pairs'])))
         if (a['QryStartPos'], a['QryEndPos']) != (b['QryEndPos'], b['QryStartPos']):
             diffs.append(('QryStart/End-not-swapped', '%s %s vs %s %s' % (a['QryStartPos'], a['QryEndPos'], b['QryStartPos'], b['QryEndPos'])))
-    if diffs and not tie:
+    # exact score ties between the strands (palindromic references) ARE judged: the statement makes no exception for them, and the
+    # unmodified tree breaks such ties independently of the reading direction
+    if diffs:
         found.append(('mirror-asymmetry:' + diffs[0][0], '; '.join('%s: %s' % d for d in diffs[:4]), 'first-pass', {}))
     if acc is not None:
         acc.evals += 2
@@ -238,8 +308,8 @@ def check_world(refs, pos, acc, key=None, setting=0):
             acc.classes['single-segment-records'] += 1
         else:
             acc.classes['no-record'] += 1
-        if diffs and tie:
-            acc.classes['tie_undecided'] += 1
+        if tie:
+            acc.classes['seed-score-tie-between-candidates'] += 1
         for f in found:
             acc.viol(f[0], case, f[1], f[2], f[3])
         acc.sample(lambda: dict(query=list(pos), refs='%d lattice-1400 references' % len(refs)))
@@ -266,16 +336,22 @@ class LayerB(core.Layer):
 
     def __init__(self, tier, seed):
         self.refs, self.qs = lattice_queries(tier, seed)
+        self.qs4200 = lattice4200_queries(tier)
         self.bounds = dict(references='2 lattice-1400 catalogue references', queries=len(self.qs), edits=[0, 1] if tier == 'quick' else [0, 2],
-                           parameters=[list(x) for x in SETTINGS], mode='separate')
+                           parameters=[list(x) for x in SETTINGS + SETTINGS_4200], mode='separate', lattice4200_queries=len(self.qs4200))
         self.rule = '%d queries (windows x strands x edit scripts on the 1400 lattice), each run as q and as mirror(q)' % len(self.qs)
 
     def nblocks(self):
-        return len(self.qs) * len(SETTINGS)
+        return len(self.qs) * len(SETTINGS) + len(self.qs4200) * len(SETTINGS_4200)
 
     def run_block(self, b, acc):
-        ri, desc, pos = self.qs[b // len(SETTINGS)]
         acc.seq += 1
+        n1 = len(self.qs) * len(SETTINGS)
+        if b >= n1:
+            refs, desc, pos = self.qs4200[(b - n1) // len(SETTINGS_4200)]
+            check_world(refs, pos, acc, key=b, setting=len(SETTINGS) + (b - n1) % len(SETTINGS_4200))
+            return
+        ri, desc, pos = self.qs[b // len(SETTINGS)]
         check_world([self.refs[ri]] if b % 3 else list(self.refs), pos, acc, key=b, setting=b % len(SETTINGS))
 
     def replay(self, case):
